@@ -12,8 +12,8 @@ MV=/tmp/verif-mut
 case "${1:-}" in
 prepare)
   if [ ! -d "$MR" ]; then git -C /repo worktree add -q --detach "$MR" HEAD || exit 1; fi
-  git -C "$MR" checkout -q --detach "$(git -C /repo rev-parse HEAD)" 2>/dev/null
   git -C "$MR" checkout -q -- . ; git -C "$MR" clean -qfd -e target
+  git -C "$MR" checkout -q --detach "$(git -C /repo rev-parse HEAD)" || exit 1
   # uncommitted hook edits of /repo (tracked + untracked, add-only, cfg-guarded)
   git -C /repo diff | git -C "$MR" apply --whitespace=nowarn - 2>/dev/null
   (cd /repo && git ls-files --others --exclude-standard | grep -v '^target/' | while read -r f; do mkdir -p "$MR/$(dirname "$f")"; cp "$f" "$MR/$f"; done)
